@@ -45,8 +45,12 @@ func (g G) Parked() bool {
 		}
 	}
 	switch {
-	case strings.HasPrefix(s, "sync."), strings.HasPrefix(s, "chan "), strings.HasPrefix(s, "semacquire"),
-		strings.HasPrefix(s, "select"):
+	case strings.HasPrefix(s, "semacquire"):
+		// Only user-level semaphores (WaitGroup.Wait, ...) count. A goroutine whose allocation starts a GC
+		// cycle parks on a runtime-internal semaphore (held by the very snapshot that observes it) and is
+		// dumped as [semacquire] under an arbitrary user frame; the runtime wakes it by itself.
+		return len(g.Frames) > 0 && strings.HasPrefix(g.Frames[0], "sync.runtime_Semacquire")
+	case strings.HasPrefix(s, "sync."), strings.HasPrefix(s, "chan "), strings.HasPrefix(s, "select"):
 		return true
 	}
 	return false
@@ -283,7 +287,8 @@ func othersIdle(gs []G, self uint64) bool {
 		switch {
 		case g.State == "running":
 			running++ // the snapshotting goroutine itself
-		case g.State == "runnable", g.State == "syscall", g.State == "sleep", g.Has("time.Sleep"):
+		case g.State == "runnable", g.State == "syscall", g.State == "sleep", g.Has("time.Sleep"),
+			strings.HasPrefix(g.State, "semacquire") && !g.Parked(), strings.HasPrefix(g.State, "GC "):
 			if isSystem(g) {
 				continue
 			}
